@@ -301,12 +301,15 @@ PROPS = {
                 "every step: every folder's parsed file list == model view (ignore patterns, partial under its final name, folder item counts, "
                 "sizes, fldr typing), up to 3 listed complete entries per folder are addressed by their listed name for get-info and download "
                 "(list size == info size == download size == bytes on disk, list type == info type, comment), and the on-disk tree incl. "
-                ".info_/.rsrc_/.incomplete side files == model; non-trivial = a mutating action on an entry that has side files followed by a "
-                "view check; distinct = hash(history, ignore set)",
+                ".info_/.rsrc_/.incomplete side files == model; TestC11Burst: 2-8 clients ask for the list, get-info or a download of different files "
+                "(distinct sizes 0..70000) at the same instant for 5-20 rounds, every answer must carry the size of the file it is about; "
+                "non-trivial = a mutating action on an entry that has side files followed by a view check, every burst; distinct = hash(history, ignore set)",
         "assumptions": ["rename/move onto an existing name, rename/move of partial uploads and of aliases, set-comment on folders are excluded (outside the statement); counted in excluded_by_construction",
                         "a mutating request that changes the tree as requested but gets no reply (names whose side-file names exceed 255 bytes) is tolerated and counted"],
-        "quick": {"runs": [{"test": "^TestC11$", "shards": 16, "checks": 80, "timeout": 600}]},
-        "thorough": {"runs": [{"test": "^TestC11$", "shards": 16, "checks": 2500, "timeout": 3400}]},
+        "quick": {"runs": [{"test": "^TestC11$", "shards": 13, "checks": 80, "timeout": 600},
+                           {"test": "^TestC11Burst$", "shards": 3, "checks": 100, "timeout": 600}]},
+        "thorough": {"runs": [{"test": "^TestC11$", "shards": 13, "checks": 2500, "timeout": 3400},
+                              {"test": "^TestC11Burst$", "shards": 3, "checks": 20000, "timeout": 3400}]},
     },
     "C14": {
         "title": "Each client receives whole, well-formed, correlated transactions",
